@@ -317,7 +317,7 @@ func s1RecvScenario(ses *s1Session, r *rand.Rand, n int, script string) *s1Recv 
 			break
 		}
 	}
-	ses.peer.Drain(40 * time.Millisecond)
+	ses.peer.Drain(120 * time.Millisecond) // S9 notices travel through the async send queue: on a loaded machine 40 ms missed a late one
 	for _, y := range ses.peer.TakeYielded() {
 		line.Notices = append(line.Notices, rec.Ints(y.Raw))
 	}
